@@ -186,6 +186,8 @@ def d_graph(family, variant, scale=1):
     elif variant == 11:
         es = es[:2]
         vs = vs[:3]
+    elif variant == 12:
+        vs = vs[:4]          # 4 edges + 4 vertices: the same TOTAL number of parts as variant 1 (3 edges + 5 vertices), different counts
     return {'t': 'graph', 'edges': es, 'vertices': vs}
 
 
@@ -631,7 +633,7 @@ def c17_jobs(tier, rng):
     pert_cases(j, range(len(objs)))
     jobs.append(j)
     # graphs
-    objs = [d_graph(f, v, 1) for f in range(3) for v in range(12)] + [d_graph(f, 0, sc) for f in range(3) for sc in (0, 2)]
+    objs = [d_graph(f, v, 1) for f in range(3) for v in range(13)] + [d_graph(f, 0, sc) for f in range(3) for sc in (0, 2)]
     j = Job('c17_graph', 'graph', objs)
     for tol in (TOLS[:1] if tier == 'quick' else TOLS):
         j.cases += [(a, b, 0, Fr(0), tol) for a in range(len(objs)) for b in range(len(objs))]
@@ -1174,8 +1176,11 @@ def c18_binding_graphs(rng, n):
                 sh = (PDIM[KINDS[k]],) * 2
                 ek = k
                 if rng.random() < 0.2:      # an inconsistent library edge anywhere in the list (wrong information shape / measurement type)
-                    if rng.random() < 0.5:
+                    c_ = rng.random()
+                    if c_ < 0.35:
                         sh = (sh[0], sh[1] + 1)
+                    elif c_ < 0.6:
+                        sh = rng.choice([(sh[0],), (sh[0],) * 3, ()])      # information that is not a matrix at all: a vector of length n, n x n x n, 0-d
                     else:
                         ek = (k + 1) % 4
                 es.append((0, [a, b], sh, ek, 0))
@@ -1184,7 +1189,7 @@ def c18_binding_graphs(rng, n):
                 lastk = {i: k for i, k in vs}
                 sh = (PDIM[KINDS[lastk[b]]],) * 2
                 if rng.random() < 0.2:
-                    sh = (sh[0] + 1, sh[1])
+                    sh = (sh[0] + 1, sh[1]) if rng.random() < 0.6 else rng.choice([(sh[0],), (sh[0],) * 3, ()])
                 es.append((1, [a, b], sh, lastk[b], lastk[a]))
         out.append((es, vs))
     return out
@@ -1196,7 +1201,7 @@ def binding_to_coq(g):
     off = ['(OPose PR2)', '(OPose PR3)', '(OPose PSE2)', '(OPose PSE3)', 'ONone', '(OArr [3%nat])']
     cl = ['Odometry', 'Landmark', '(Custom 0)', '(Custom 1)']
     pk = ['PR2', 'PR3', 'PSE2', 'PSE3']
-    e_s = '; '.join('mkedge %s [%s] [%d%%nat; %d%%nat] %s %s' % (cl[c], '; '.join(map(str, ids)), sh[0], sh[1], est[e], off[o] if c == 1 else 'ONone')
+    e_s = '; '.join('mkedge %s [%s] [%s] %s %s' % (cl[c], '; '.join(map(str, ids)), '; '.join('%d%%nat' % x for x in sh), est[e], off[o] if c == 1 else 'ONone')
                     for c, ids, sh, e, o in es)
     v_s = '; '.join('mkvertex %d %s' % (i, pk[k]) for i, k in vs)
     return '([%s], [%s])' % (e_s, v_s)
@@ -1207,7 +1212,7 @@ def binding_impl(g):
     V = [Vertex(i, mkpose(KINDS[k], j)) for j, (i, k) in enumerate(vs)]
     E = []
     for c, ids, sh, e, o in es:
-        info = np.eye(sh[0], sh[1])
+        info = np.eye(sh[0], sh[1]) if len(sh) == 2 else np.ones(tuple(sh))
         if c == 0:
             E.append(EdgeOdometry(list(ids), info, mk_other(e, 'est')))
         elif c == 1:
